@@ -23,12 +23,23 @@ use crate::utils::clipping::bbox_own_areas::{
     exclusively_owned_areas, exclusively_owned_areas_normalized_shares,
 };
 use crate::voting::Voting;
+#[cfg(not(similari_verif))]
 use crossbeam::channel::{Receiver, Sender};
+#[cfg(similari_verif)]
+use crate::verif::crossbeam;
+#[cfg(similari_verif)]
+use crate::verif::crossbeam::channel::{Receiver, Sender};
 use log::warn;
 use rand::Rng;
 use std::mem;
+#[cfg(not(similari_verif))]
 use std::sync::{Arc, Condvar, Mutex, RwLock, RwLockReadGuard, RwLockWriteGuard};
+#[cfg(similari_verif)]
+use crate::verif::sync::{Arc, Condvar, Mutex, RwLock, RwLockReadGuard, RwLockWriteGuard};
+#[cfg(not(similari_verif))]
 use std::thread::{spawn, JoinHandle};
+#[cfg(similari_verif)]
+use crate::verif::thread::{spawn, JoinHandle};
 
 type VotingSenderChannel = Sender<VotingCommands>;
 type VotingReceiverChannel = Receiver<VotingCommands>;
@@ -89,6 +100,8 @@ fn voting_thread(
                 tracks,
                 monitor,
             } => {
+                #[cfg(similari_verif)]
+                crate::verif::point("vote.begin", scene_id);
                 let voting = VisualVoting::new(
                     match metric_opts.positional_kind {
                         PositionalMetricType::Mahalanobis => MAHALANOBIS_NEW_TRACK_THRESHOLD,
@@ -101,6 +114,8 @@ fn voting_thread(
                 let mut res = Vec::default();
                 for mut t in tracks {
                     let source = t.get_track_id();
+                    #[cfg(similari_verif)]
+                    crate::verif::point("vote.write", scene_id);
 
                     let tid = {
                         let mut track_id = track_id.write().unwrap();
@@ -142,6 +157,8 @@ fn voting_thread(
                     res.push(SortTrack::from(track))
                 }
 
+                #[cfg(similari_verif)]
+                crate::verif::point("vote.result", scene_id);
                 let res = channel.send((scene_id, res));
                 if let Err(e) = res {
                     warn!("Unable to send results to a caller, likely the caller already closed the channel. Error is: {:?}", e);
@@ -313,6 +330,8 @@ impl BatchVisualSort {
                     tracks,
                 })
                 .expect("Sending voting request to voting thread must not fail");
+            #[cfg(similari_verif)]
+            crate::verif::point("batch.dispatched", *scene_id);
         }
     }
 
